@@ -343,7 +343,26 @@ def solver_session(tr, path, na, twopl, opts, ops, backend_cfg, clock,
                 continue
             log('api.call', (name, kw))
             try:
-                if name == 'solve':
+                if name == 'check_stability':
+                    # the library's stability check called directly on the
+                    # object's Model (C06 observes its return value), any
+                    # number of times between solves
+                    M = kw['assignment']
+                    lst = []
+                    for i, row in enumerate(s.model.pairs):
+                        want = M[i] if i < len(M) else 0
+                        hit = None
+                        for p in row:
+                            if want and p.projectID == want:
+                                hit = p
+                                break
+                        if want and hit is None:
+                            raise HarnessError(
+                                'assignment %r not on the lists' % (M,))
+                        lst.append(hit)
+                    r = s.model.check_stability(lst)
+                    text = '%s:%r' % (type(r).__name__, r)
+                elif name == 'solve':
                     be.solve_index += 1
                     call_kw = dict(kw)
                     tl_type = call_kw.pop('tl_type', None)
